@@ -325,7 +325,13 @@ func (c *Ctx) ErrFlow(include, armed func(*ssa.Function) bool) []core.Ob {
 				// ---- E3: a short read is not forgiven: the error of io.ReadFull / io.ReadAtLeast / io.CopyN
 				// (io.EOF there means "nothing arrived although something was expected") is not compared
 				// with io.EOF on a path that then returns a nil error
-				if exactRead(cc) {
+				// ... and likewise the error of one of the module's own decoders: where their input ends
+				// on a boundary between two items they pass a bare io.EOF up from any depth of the document
+				modDecoder := false
+				if g := cc.StaticCallee(); g != nil && c.P.InModule(g) && len(g.Blocks) > 0 {
+					modDecoder = true
+				}
+				if exactRead(cc) || modDecoder {
 					ne := 0
 					for _, r := range *errv.Referrers() {
 						edge := eofEdge(r, errv)
